@@ -1735,6 +1735,37 @@ def g10(ctx, res):
               reason="a property only equals a property")
 
 
+# --------------------------------------------------------------------- G14
+@rule("G14", "what the JSON serializer writes besides the keyword attributes is part of equality")
+def g14(ctx, res):
+    eq = ctx.func("Element.__eq__")
+    other = eq.params[1].name
+    eq_helpers = set()
+    for x in walk_own(eq.body):
+        if isinstance(x, ast.Call) and isinstance(x.func, ast.Attribute) and norm(x.func.value) in ("self", other) \
+                and x.func.attr in ctx.cls("Element").methods:
+            eq_helpers.add(x.func.attr)
+    # what the JSON serializer writes besides the keyword attributes must be part of equality as well
+    se = ctx.func("_serialize_element")
+    el = se.params[0].name
+    emitted = sorted({x.attr for x in walk_own(se.body) if isinstance(x, ast.Attribute) and norm(x.value) == el
+                      and x.attr.startswith("__") and x.attr.endswith("__") and x.attr not in ("__class__", "__dict__")})
+    eq_src = norm(eq.node)
+    for hname in eq_helpers:
+        eq_src += norm(ctx.cls("Element").methods[hname].node)
+    for site in ctx.inf.sites(eq)[0]:
+        c_ = getattr(site, "callee", None)
+        if site.kind == "call" and c_ is not None and c_.cls is None and c_.module is eq.module and c_.name.startswith("_"):
+            eq_src += norm(c_.node)
+    for attr in emitted:
+        compared = attr in eq_src
+        res.judge(True if compared else False, eq, f"{attr} (emitted by the JSON serializer) is compared",
+                  detail={"emitted_at": f"_serialize_element :: {el}.{attr}"},
+                  reason=f"two object classes that differ only in {attr} compare equal but serialize differently "
+                         "(the serializer writes it as `title`): equal elements must serialize to the same JSON Schema")
+    res.floor("dunder_attributes_emitted", len(emitted), 1)
+
+
 # --------------------------------------------------------------------- G11
 @rule("G11", "class cycles are tested before anything is yielded and refused with the schema-parse error")
 def g11(ctx, res):
@@ -2013,6 +2044,29 @@ def g12(ctx, res):
             rets = sorted({norm(ret_expr(p)) for p in enumerate_paths(m.body) if p.exit == "return" and ret_expr(p) is not None})
             res.check(set(rets) <= {f"float({v})", v} and f"float({v})" in rets, m, "return float(value)",
                       detail={"returns": rets}, reason="the only conversion: an accepted integer comes back as the equal float")
+            # ... the EQUAL float: float() rounds integers beyond 2**53, so the converted value is returned only where it
+            # was compared equal to the original
+            from .paths import resolve_on_path as _rop
+            unequal = []
+            n_conv = 0
+            for p_ in enumerate_paths(m.body):
+                r_ = ret_expr(p_)
+                if p_.exit != "return" or r_ is None or norm(_rop(r_, p_)) != f"float({v})":
+                    continue
+                n_conv += 1
+                tested = False
+                for t_, pol_ in p_.conds:
+                    if isinstance(t_, str):
+                        continue
+                    c_ = cmp_atom(_rop(t_, p_), pol_)
+                    if c_ and c_[1] == "==" and {c_[0], c_[2]} == {f"float({v})", v}:
+                        tested = True
+                if not tested:
+                    unequal.append(p_.exit_node.lineno)
+            res.judge((not unequal) if n_conv else None, m, "the float returned was compared equal to the integer",
+                      detail={"converting_returns": n_conv, "returned_without_the_test_at_lines": unequal},
+                      reason="float(value) rounds an integer beyond 2**53 to a neighbouring float: the accepted value comes back "
+                             "altered (Number()(2**53 + 1) == 9007199254740992.0)")
         else:
             res.violation(m, f"{c.name}.construct", reason="an element class other than Number converts accepted values")
     res.floor("construct_methods", n_cons, 4)
